@@ -8,6 +8,9 @@ import (
 	"errors"
 	"fmt"
 	"math/rand"
+	"os"
+	"os/exec"
+	"path/filepath"
 	"runtime"
 	"sort"
 	"strconv"
@@ -585,11 +588,83 @@ func ConcRandom(t *tr.W, r *rand.Rand, n int) {
 
 // Unscheduled hammers one cache from several goroutines without the
 // scheduler (real preemption) and dumps at quiescence; the trace carries only
-// the dump, which the invariant oracle evaluates.
+// the dump, which the invariant oracle evaluates.  The goroutines use the whole
+// synchronised API, Range, Len and Size included.  Unsynchronised access to a Go
+// map is a fatal runtime error that no recover can stop, so the cases run in a
+// child process; if it dies the case ends with "status => CRASH <reason>".
 func Unscheduled(t *tr.W, r *rand.Rand, n int) {
+	exe, err := os.Executable()
+	if err != nil {
+		unscheduledBody(t, r, n)
+		return
+	}
+	tmp := filepath.Join(os.TempDir(), fmt.Sprintf("lru-free-%d.trace", os.Getpid()))
+	defer os.Remove(tmp)
+	cmd := exec.Command(exe, "lru-free", tmp)
+	cmd.Env = append(os.Environ(), fmt.Sprintf("LRU_FREE=%d", n), fmt.Sprintf("LRU_FREE_SEED=%d", r.Int63()))
+	var out bytes.Buffer
+	cmd.Stdout, cmd.Stderr = &out, &out
+	done := make(chan error, 1)
+	if err := cmd.Start(); err != nil {
+		unscheduledBody(t, r, n)
+		return
+	}
+	go func() { done <- cmd.Wait() }()
+	var werr error
+	select {
+	case werr = <-done:
+	case <-time.After(time.Duration(60+n/2) * time.Second):
+		cmd.Process.Kill()
+		<-done
+		werr = fmt.Errorf("no result within the time limit")
+	}
+	// forward what the child recorded
+	if b, err := os.ReadFile(tmp); err == nil {
+		for _, line := range strings.Split(strings.TrimRight(string(b), "\n"), "\n") {
+			switch {
+			case strings.HasPrefix(line, "case "):
+				f := strings.SplitN(line, " ", 3)
+				if len(f) == 3 {
+					t.Case("%s", f[2])
+				}
+			case strings.HasPrefix(line, "# stat "):
+				f := strings.Fields(line)
+				if len(f) == 4 {
+					if v, err := strconv.Atoi(f[3]); err == nil {
+						t.Stats[f[2]] += v
+					}
+				}
+			case strings.Contains(line, " => "):
+				f := strings.SplitN(line, " => ", 2)
+				t.Op(f[0], f[1])
+			case line != "":
+				t.Line("%s", line)
+			}
+		}
+	}
+	if werr != nil {
+		reason := werr.Error()
+		for _, l := range strings.Split(out.String(), "\n") {
+			if strings.HasPrefix(l, "fatal error:") || strings.HasPrefix(l, "panic:") {
+				reason = l
+				break
+			}
+		}
+		t.Case("free crashed")
+		t.Op("status", "CRASH "+reason)
+		t.Hit("free.crash")
+	}
+}
+
+func unscheduledBody(t *tr.W, r *rand.Rand, n int) {
 	lru.VerifYield = nil
 	for i := 0; i < n; i++ {
 		cap := uint64(3 + r.Intn(6))
+		nkeys := 2
+		if i%2 == 1 {
+			// a wider key space keeps an unordered walk of the index busy for longer
+			nkeys, cap = 24, uint64(20+r.Intn(20))
+		}
 		w := newWorld(cap)
 		var wg sync.WaitGroup
 		nth := 3
@@ -604,16 +679,22 @@ func Unscheduled(t *tr.W, r *rand.Rand, n int) {
 			go func(seed int64) {
 				defer wg.Done()
 				rr := rand.New(rand.NewSource(seed))
-				for j := 0; j < 200; j++ {
-					key := rr.Intn(2)
-					switch rr.Intn(4) {
-					case 0, 1:
-						v := &val{id: int(vid.Add(1)), size: 1 + uint64(rr.Intn(int(cap))), bad: new(atomic.Bool)}
+				for j := 0; j < 400; j++ {
+					key := rr.Intn(nkeys)
+					switch rr.Intn(8) {
+					case 0, 1, 2:
+						v := &val{id: int(vid.Add(1)), size: 1 + uint64(rr.Intn(int(min(cap, 8)))), bad: new(atomic.Bool)}
 						w.c.Put(key, v)
-					case 2:
-						w.c.Get(key)
 					case 3:
+						w.c.Get(key)
+					case 4:
 						w.c.LoadAndDelete(key)
+					case 5:
+						w.c.Range(func(int, *val) bool { return true })
+					case 6:
+						w.c.Len()
+					default:
+						w.c.Size()
 					}
 				}
 			}(seeds[k])
@@ -626,10 +707,16 @@ func Unscheduled(t *tr.W, r *rand.Rand, n int) {
 		case <-time.After(5 * time.Second):
 			t.Op("status", "HANG")
 		}
+		t.Hit("free.case")
 	}
 }
 
 func init() {
+	// the free-running cases, run as a child of the lru driver
+	tr.Register("lru-free", func(t *tr.W, thorough bool) {
+		seed, _ := strconv.ParseInt(os.Getenv("LRU_FREE_SEED"), 10, 64)
+		unscheduledBody(t, rand.New(rand.NewSource(seed)), tr.EnvInt("LRU_FREE", 40))
+	})
 	tr.Register("lru", func(t *tr.W, thorough bool) {
 		tr.MaxHangs = 6
 		r := tr.Rng(16)
